@@ -60,6 +60,9 @@ mod celestia_client;
 mod read;
 mod state;
 mod submission;
+#[cfg(all(test, feature = "verif"))]
+#[path = "/verif/harness/relayer/mod.rs"]
+mod verif;
 mod write;
 
 pub(crate) use builder::Builder;
